@@ -243,7 +243,9 @@ pub fn end_checks(w: &mut World, sc: &C17Scen) {
     for c in &w.conns {
         for r in &c.lost {
             use quinn_proto::ConnectionError as E;
-            let in_second = c.inc == second || c.inc == second_peer;
+            // (every server connection the second client connection gave rise to: after a
+            // failed first attempt its retransmitted Initial creates another one)
+            let in_second = c.inc == second || c.inc == second_peer || (c.side == Side::Server && c.peer == second);
             let text = format!("{}", r);
             let legit = match r {
                 E::ApplicationClosed(_) => w.faults.m.contains_key("app_close"),
